@@ -255,6 +255,11 @@ func (sv *negServer) serve(conn net.Conn) {
 				sv.mu.Unlock()
 			}
 			if ee, ok := tok.(xml.EndElement); ok && ee.Name.Local == "stream" {
+				if m["mute"] == "true" {
+					// a peer that does not answer the closing tag and keeps the connection open: whatever the client
+					// still writes on it is seen
+					continue
+				}
 				w("</stream:stream>")
 				return
 			}
@@ -913,6 +918,15 @@ func (np negProp) oneConn(client *xmpp.Client, cfg *xmpp.Config, xt *xmpp.XMPPTr
 	case <-time.After(10 * time.Second):
 		out = "hang"
 	}
+	if strings.HasPrefix(out, "failed") && m["mute"] == "true" {
+		// the application goes on using the client although Connect returned an error: whatever it sends must not
+		// reach the peer over the connection the negotiation refused
+		func() {
+			defer func() { recover() }()
+			client.SendRaw("<message xmlns='jabber:client' id='after-fail'><body>secret</body></message>")
+		}()
+		time.Sleep(30 * time.Millisecond)
+	}
 	ln.Close()
 	connMu.Lock()
 	if srvConn != nil {
@@ -930,6 +944,10 @@ func (np negProp) oneConn(client *xmpp.Client, cfg *xmpp.Config, xt *xmpp.XMPPTr
 	hasBind := false
 	var ws []string
 	for _, s := range seen {
+		if strings.HasPrefix(s, "other-message#after-fail") {
+			ws = append(ws, "afterfail"+s[strings.LastIndex(s, ":"):])
+			continue
+		}
 		if strings.HasPrefix(s, "other-") || strings.HasPrefix(s, "iq-other") {
 			continue
 		}
@@ -987,7 +1005,7 @@ func (s negScript) op() []string {
 	for _, n := range names {
 		hn = append(hn, hx(n))
 	}
-	keys := []string{"conn", "f1", "tls", "hs", "cert", "roots", "skip", "sn", "dom", "o2", "f2", "auth", "o3", "f3", "res", "bind", "sess", "en", "smid", "jid"}
+	keys := []string{"conn", "f1", "tls", "hs", "cert", "roots", "skip", "sn", "dom", "o2", "f2", "auth", "o3", "f3", "res", "bind", "sess", "en", "smid", "jid", "mute"}
 	out := []string{"conn"}
 	for _, k := range keys {
 		out = append(out, k+"="+s[k])
@@ -1108,6 +1126,18 @@ func (np negProp) Generate(rng *rand.Rand, tier string, st *Stats) []Case {
 	}
 	logger = false
 
+	// a peer that refuses (or cannot prove) TLS, does not answer the closing tag and keeps the connection open: the
+	// application's later sends must not travel over it - on the first failed attempt and on the next one of the same
+	// client; through the hook transport (no wait for the closing tag) and through NewClient alone (ConnectTimeout 1 s)
+	if np.id == "C04" {
+		noTLS := happy(false, false, false).with("mute", "true")
+		wrongHost := happy(true, false, false).with("cert", "wronghost", "mute", "true")
+		api := func(s negScript) []string { o := s.op(); o[0] = "apiconn"; return o }
+		mk(false, false, noTLS.op(), noTLS.op(), wrongHost.op())
+		mk(false, false, api(noTLS), api(wrongHost))
+		mk(false, false, happy(true, false, false).op(), noTLS.op(), noTLS.op())
+		st.Add("send_after_refused_negotiation", 8)
+	}
 	// the public entry points announce the established session exactly when they succeed
 	if np.id == "C03" {
 		mk(true, true, []string{"pubapi"})
